@@ -293,6 +293,9 @@ func c19Prepare(run *vfRun, w *vfWorld, idp2 *vfIdP, cfg c19Cfg, hub *vfRedisHub
 		mk(iss, "cid", map[string]interface{}{"exp": "soon"}, vfMintOpts{}), mk(iss, 5, nil, vfMintOpts{}), mk(iss, []interface{}{1, "cid"}, nil, vfMintOpts{}), mk(iss, map[string]string{"a": "b"}, nil, vfMintOpts{}),
 		mk(iss, "cid", map[string]interface{}{"email": map[string]string{"a": "b"}, "groups": map[string]interface{}{"x": []int{1}}, "sub": 7, "email_verified": "maybe", "preferred_username": []string{"a"}}, vfMintOpts{}),
 		mk(idp2.Issuer, "aud2", map[string]interface{}{"email": 5, "groups": "g", "sub": nil, "email_verified": "x"}, vfMintOpts{}),
+		mk(iss, "cid", map[string]interface{}{"email_verified": 1}, vfMintOpts{}), mk(iss, "cid", map[string]interface{}{"email_verified": 0}, vfMintOpts{}), mk(iss, "cid", map[string]interface{}{"email_verified": []bool{true}}, vfMintOpts{}),
+		mk(iss, "cid", map[string]interface{}{"email_verified": map[string]bool{"v": true}}, vfMintOpts{}), mk(iss, "cid", map[string]interface{}{"email_verified": 1.5}, vfMintOpts{}), mk(idp2.Issuer, "aud2", map[string]interface{}{"email_verified": []interface{}{}}, vfMintOpts{}),
+		mk(iss, "cid", map[string]interface{}{"email": []string{"a@b"}, "groups": 7, "preferred_username": 1e3, "email_verified": nil}, vfMintOpts{}),
 		mk(iss, "cid", map[string]interface{}{"exp": 1e30, "iat": -1, "nbf": "x"}, vfMintOpts{}), mk(iss, "cid", nil, vfMintOpts{Alg: "none"}), mk(iss, "cid", nil, vfMintOpts{Key: vfKeyB}),
 		mk(iss, "cid", nil, vfMintOpts{Kid: "unknown"}), mk(iss, "cid", nil, vfMintOpts{Alg: "HS256", HMACKey: vfPubPEM(&vfKeyA.PublicKey)}), mk(iss, "cid", nil, vfMintOpts{Alg: "ES256"}), mk(iss, "cid", nil, vfMintOpts{BadSig: true}),
 		"ey.ey.x", "eyJhbGciOiJSUzI1NiJ9.eyJ.sig", "eyJhbGciOiJSUzI1NiJ9." + vfB64([]byte("not json")) + ".c2ln", "eyJhbGciOiJSUzI1NiJ9." + vfB64([]byte(`{"iss":`)) + ".c2ln",
